@@ -218,6 +218,7 @@ def recount(out, prefix, gene_strategy, transcript_strategy, mono_isoforms, n_un
         confirmed = set()
         n_amb = n_nof = 0
         per_id = {}
+        per_id_types = {}
         for key, d in per_read.items():
             feats = d["g"] if level == "gene" else d["t"]
             atype = d["type"] if level == "transcript" else (d["gtype"] or d["type"])
@@ -228,6 +229,7 @@ def recount(out, prefix, gene_strategy, transcript_strategy, mono_isoforms, n_un
                 n_amb += 1
             w = weight(strategy, atype, len(feats))
             per_id[d["id"]] = per_id.get(d["id"], 0.0) + w * len(feats)
+            per_id_types.setdefault(d["id"], []).append(atype)
             for f in feats:
                 sums[f] = sums.get(f, 0.0) + w
             if atype in ("unique", "unique_minor_difference"):
@@ -240,7 +242,8 @@ def recount(out, prefix, gene_strategy, transcript_strategy, mono_isoforms, n_un
                         confirmed.add(f)
         heavy = sorted(rid for rid, v in per_id.items() if v > 1.0 + 1e-6)
         if heavy:
-            errs.append(("read-weight-above-one", "%s table: read %s is reported at several loci and contributes %.2f in total" %
+            tied = len(per_id_types[heavy[0]]) > 1 and set(per_id_types[heavy[0]]) == {"ambiguous"}
+            errs.append(("read-weight-above-one" + (":tied-loci" if tied else ""), "%s table: read %s is reported at several loci and contributes %.2f in total" %
                          (level, heavy[0], per_id[heavy[0]])))
         header, table = run.parse_counts(run.find(out, prefix, ".%s_counts.tsv" % level))
         if table is None:
@@ -296,7 +299,11 @@ def recount(out, prefix, gene_strategy, transcript_strategy, mono_isoforms, n_un
                 if len(vals) > 1:
                     errs.append(("duplicate-row", "transcript_model table lists %s %d times" % (f, len(vals))))
                 if abs(v) > 1e-9 and abs(v - sums.get(f, 0.0)) > 0.011:
-                    errs.append(("model-value-not-sum", "transcript_model %s = %.2f but transcript_model_reads gives %.2f" % (f, v, sums.get(f, 0.0))))
+                    loci = {}
+                    for (rid_, chr_, ex_) in per_read:
+                        loci.setdefault(rid_, set()).add((chr_, ex_))
+                    tied = any(f in tids and len(loci.get(rid, ())) > 1 for rid, tids in per.items())
+                    errs.append(("model-value-not-sum" + (":tied-loci" if tied else ""), "transcript_model %s = %.2f but transcript_model_reads gives %.2f" % (f, v, sums.get(f, 0.0))))
             # reads listed with '*' only (assigned to no model) are the table's __no_feature line, whatever region they came from
             n_star = sum(1 for rid, tids in per.items() if all(t == "*" for t in tids))
             nof = [int(float(x[0])) for k, v in table.items() if k == "__no_feature" for x in v]
@@ -368,6 +375,11 @@ def l2_world(variant):
         reads.append({"name": "unm1", "unmapped": True})
         reads.append({"name": "unm2", "unmapped": True})
         add([[1001, 1200], [1601, 1800]], polya=False, mapq=0)     # low MAPQ consistent
+    if variant >= 2:
+        # a multi-mapped read whose alignments tie: the primary one is ambiguous over T1/T3 (slots 0-1), the secondary one a full match
+        # of _TU1 on the other chromosome - one read, two loci
+        reads.append(W.read_of("mmT", "chr1", [[1001, 1200], [1601, 1750]], polya=False))
+        reads.append(W.read_of("mmT", "chr2", W.exons(5000, [0, 1, 2]), secondary=True))
     w["reads"] = reads
     W.add_sites_for_blocks(w, "chr1", W.exons(1000, [0, 1, 3, 4]), "+")
     W.dedup_sites(w)
@@ -516,8 +528,9 @@ def run(ctx):
                           {"reads": reads, "level": level, "strategy": strategy, "norm": norm})
     ctx.note("L1 counter executions: %d" % total)
     jobs = []
-    for variant in (0, 1):
-        for gs, ts in (itertools.product(STRATEGIES, STRATEGIES) if not quick else [(s, s) for s in STRATEGIES] + [("unique_splicing_consistent", "unique_only")]):
+    for variant in (0, 1, 2):
+        for gs, ts in (itertools.product(STRATEGIES, STRATEGIES) if not quick and variant < 2 else
+                       [(s, s) for s in STRATEGIES] + [("unique_splicing_consistent", "unique_only")]):
             jobs.append((variant, gs, ts, "simple", (), ctx.scratch))
     if not quick:
         for gs in STRATEGIES:
